@@ -7,6 +7,9 @@ from typing import Tuple, Optional
 DEFAULT_ORDER = 4
 DEFAULT_N = 1
 
+# np.trapz was removed in numpy 2.x in favour of np.trapezoid
+_trapezoid = getattr(np, "trapezoid", None) or np.trapz
+
 
 @njit(cache=True)
 def integrate(
@@ -156,7 +159,7 @@ def complex_response(
 
     normalized_omega = 2j * np.pi * normalized_frequency
 
-    response_factor = np.zeros_like(normalized_frequency, dtype="complex_")
+    response_factor = np.zeros_like(normalized_frequency, dtype="complex128")
     for ii in range(-number_of_explicit_points, number_of_implicit_points):
         response_factor += stencil[ii + number_of_explicit_points] * np.exp(
             normalized_omega * ii
@@ -350,6 +353,6 @@ def integrated_response_factor_spectral_tail(
         else:
             spectrum[index] = integration_frequencies[index] ** tail_power
 
-    return np.trapz(spectrum, integration_frequencies) / np.trapz(
+    return _trapezoid(spectrum, integration_frequencies) / _trapezoid(
         np.abs(complex_amplification_factor) ** 2 * spectrum, integration_frequencies
     )
